@@ -37,11 +37,21 @@ import (
 //	recogniser OK        + interpretation shows wrong bytes   → VIOLATION (a concrete counter-shape exists)
 //	recogniser not OK    + interpretation OK                  → OK (reason names both)
 //	recogniser not OK    + interpretation wrong               → VIOLATION
-//	recogniser not OK    + interpretation not available       → the recogniser's verdict stands
+//	recogniser VIOLATION + interpretation not available       → the recogniser's verdict stands
+//	recogniser undecided + interpretation not available       → NOT DECIDED (held, with a note)
 //
 // "not available" = the interpretation aborted (construct not modelled, a
 // data-dependent branch that is not an error exit …); an abort alone is never
-// a violation and never a pass.
+// a violation. COMPLETENESS BEFORE VERDICT: a recogniser that is "undecided"
+// did not find its pattern — it saw only part of the code (the rest sits in a
+// helper, a closure, a shape it does not parse) — and says nothing about the
+// property; when the interpretation cannot decide the clause either, nobody
+// has OBSERVED an offending construct, and the clause is recorded as
+// "NOT DECIDED — …" (status held, plus a note in the evidence) instead of being
+// reported. For that reason the recognisers report as VIOLATION only what they
+// positively saw (a wrong offset, order, width, condition); "pattern not found"
+// is always "undecided". A missing anchor, an internal error of the
+// interpretation and a signature that no longer resolves stay failures.
 
 type c14State int
 
@@ -60,6 +70,17 @@ type c14V struct {
 func c14Ok(f string, a ...any) c14V   { return c14V{c14Good, fmt.Sprintf(f, a...)} }
 func c14Bad_(f string, a ...any) c14V { return c14V{c14Bad, fmt.Sprintf(f, a...)} }
 func c14Na(f string, a ...any) c14V   { return c14V{c14NA, fmt.Sprintf(f, a...)} }
+
+// hard: the interpretation is unavailable for a reason that must not be turned
+// into NOT DECIDED (the checker itself failed, or an anchor is gone).
+func (v c14V) hard() bool {
+	return v.st == c14NA && (strings.Contains(v.msg, "internal error") || strings.Contains(v.msg, "does not resolve"))
+}
+
+func c14NotDecided(r *report.Run, rule, construct, synMsg string, sem c14V) string {
+	r.Note("%s %s: NOT DECIDED — the shape recogniser does not apply (%s) and the lane interpretation is not available (%s)", rule, construct, synMsg, sem.msg)
+	return "NOT DECIDED — the shape recogniser does not apply to this spelling (" + synMsg + ") and the lane interpretation is not available (" + sem.msg + "): no offending construct was observed"
+}
 
 // c14NoRecogniser (environment MANTICHECK_C14_RECOGNISER=off) makes settle and
 // arbitrate treat every verdict of the shape recognisers as "undecided", so
@@ -88,8 +109,10 @@ func (x *c14) settle(rule, construct, pos string, synSt report.Status, synMsg st
 		r.Fail(rule, construct, pos, synMsg+"; lane interpretation: "+sem.msg)
 	case synSt == report.Finding:
 		r.Fail(rule, construct, pos, synMsg+" (lane interpretation not available: "+sem.msg+")")
-	default:
+	case sem.hard():
 		r.Undecided(rule, construct, pos, synMsg+" (lane interpretation not available: "+sem.msg+")")
+	default:
+		r.OK(rule, construct, pos, c14NotDecided(r, rule, construct, synMsg, sem))
 	}
 }
 
@@ -120,6 +143,10 @@ func arbitrateObls(r *report.Run, from int, match func(o *report.Obligation) boo
 			o.Status = report.Discharged
 		case sem.st == c14Bad:
 			o.Reason += "; lane interpretation: " + sem.msg
+			o.Status = report.Finding
+		case o.Status == report.Undecided && !sem.hard():
+			o.Reason = c14NotDecided(r, o.Rule, o.Construct, o.Reason, sem)
+			o.Status = report.Discharged
 		default:
 			o.Reason += " (lane interpretation not available: " + sem.msg + ")"
 		}
@@ -559,8 +586,9 @@ func (x *c14) semFromBytes(fromB *ssa.Function) *c14ReadSem {
 }
 
 // semKeyHash interprets (*KeyCredential).ComputeKeyHash on entry sequences
-// and compares what reaches utils.ComputeHash with the bytes that follow the
-// KeyHash entry.
+// and compares the byte sequence that reaches a SHA-256 digest (through
+// utils.ComputeHash, or written piecewise into a sha256 state — see absint's
+// hash model) with the bytes that follow the KeyHash entry.
 func (x *c14) semKeyHash(cKH *ssa.Function) c14V {
 	U := x.unknownType()
 	kh := int(x.hashVal)
@@ -579,10 +607,14 @@ func (x *c14) semKeyHash(cKH *ssa.Function) c14V {
 	if other < 0 {
 		other = U
 	}
-	hashFn := x.P.Func(c14PkgUtils, "", "ComputeHash")
-	if hashFn == nil {
-		return c14Na("utils.ComputeHash does not resolve")
-	}
+	// What is observed is the byte sequence that reaches a SHA-256 digest
+	// (absint's hash model: the concatenation of everything written into a
+	// sha256.New() state before Sum, or the argument of sha256.Sum256), so it
+	// does not matter whether ComputeKeyHash builds a buffer and hands it to
+	// utils.ComputeHash, streams the pieces into a digest itself, or goes
+	// through another helper: the helpers of the utils package are entered, not
+	// summarised.
+	utilsPkg := x.P.Pkg(c14PkgUtils)
 	rbIdx := c14FieldIdx(x.kcSt, "RawBytes")
 	if rbIdx < 0 {
 		return c14Na("KeyCredential.RawBytes does not resolve")
@@ -615,23 +647,32 @@ func (x *c14) semKeyHash(cKH *ssa.Function) c14V {
 			blob, arr, src, laid := c14EntryBlob(in, s.ents, s.trailing)
 			recv.Kids[rbIdx].Leaf = blob
 			var hashed []absint.Slice
-			harr, _ := in.SymBytes("digest", 32)
+			var algs []string
+			harr, hsrc := in.SymBytes("digest", 32)
 			digest := absint.Slice{Arr: harr, Lo: 0, Hi: 32, Cap: 32}
 			var obs []c14Obs
-			in.Hook = x.entryHook(arr, src, &obs, func(callee *ssa.Function, args []absint.Value) (absint.Value, bool) {
-				if callee != hashFn || len(args) != 1 {
+			in.Digest = func(_ *absint.Interp, alg string, content absint.Slice) (absint.Slice, bool) {
+				hashed = append(hashed, content)
+				algs = append(algs, alg)
+				if alg != "sha256" {
+					return absint.Slice{}, false
+				}
+				return digest, true
+			}
+			summarise := x.entryHook(arr, src, &obs, nil)
+			in.Hook = func(in *absint.Interp, cc *ssa.CallCommon, callee *ssa.Function, args []absint.Value) (absint.Value, bool) {
+				if utilsPkg != nil && callee.Pkg != nil && callee.Pkg.Pkg == utilsPkg.Types {
 					return nil, false
 				}
-				a, ok := args[0].(absint.Slice)
-				if !ok {
-					a = absint.Slice{Nil: true, Lo: -1}
-				}
-				hashed = append(hashed, a)
-				return digest, true
-			})
+				return summarise(in, cc, callee, args)
+			}
 			res, err := in.Call(cKH, absint.Ptr{N: recv})
 			if err != nil {
 				switch {
+				case len(in.Unknown) > 0:
+					// calls that are not modelled may have clobbered the blob (their
+					// arguments are forgotten): what follows is not an observation
+					return err.Error() + " (after calls that are not modelled: " + strings.Join(in.Unknown, ", ") + ")"
 				case in.Forks() > 0 && strings.Contains(err.Error(), "would panic"):
 					bad = append(bad, fmt.Sprintf("entry sequence %s: ComputeKeyHash branches on the content of value bytes and then %s", s.name, err.Error()))
 					return ""
@@ -643,12 +684,35 @@ func (x *c14) semKeyHash(cKH *ssa.Function) c14V {
 				}
 				return err.Error()
 			}
-			if len(hashed) != 1 || hashed[0].Lo < 0 {
-				bad = append(bad, fmt.Sprintf("entry sequence %s: utils.ComputeHash is applied %d times to a byte slice, expected once", s.name, len(hashed)))
+			// COMPLETENESS: when calls that are not modelled took part in the run
+			// (crypto.SHA256.New(), a hash from another package, an interface the
+			// run cannot resolve) the digest may have been computed there
+			unmodelled := ""
+			if len(in.Unknown) > 0 {
+				unmodelled = strings.Join(in.Unknown, ", ")
+			}
+			if len(hashed) == 0 && unmodelled != "" {
+				return "no SHA-256 digest was observed, but the run went through calls that are not modelled (" + unmodelled + ")"
+			}
+			if len(hashed) != 1 {
+				bad = append(bad, fmt.Sprintf("entry sequence %s: a digest is computed %d times (utils.ComputeHash / sha256 Sum), expected once", s.name, len(hashed)))
 				return ""
 			}
-			if rs, ok := res.(absint.Slice); !ok || rs.Arr != harr || rs.Lo != 0 || rs.Hi != 32 {
-				bad = append(bad, fmt.Sprintf("entry sequence %s: what ComputeKeyHash returns is not the digest utils.ComputeHash returned", s.name))
+			if algs[0] != "sha256" {
+				bad = append(bad, fmt.Sprintf("entry sequence %s: the digest computed is %s, MS-ADTS requires SHA-256", s.name, algs[0]))
+				return ""
+			}
+			rs, ok := res.(absint.Slice)
+			isDigest := ok && !rs.Nil && rs.Arr != nil && rs.Len() == 32
+			for i := 0; isDigest && i < 32; i++ {
+				iv, ok := rs.Arr.Kids[rs.Lo+i].Leaf.(absint.Int)
+				isDigest = ok && iv.V.Equal(lanes.SrcByte(hsrc, i))
+			}
+			if !isDigest && unmodelled != "" {
+				return "what is returned is not recognisably the digest, but the run went through calls that are not modelled (" + unmodelled + ")"
+			}
+			if !isDigest {
+				bad = append(bad, fmt.Sprintf("entry sequence %s: what ComputeKeyHash returns is not the 32-byte SHA-256 digest that was computed", s.name))
 				return ""
 			}
 			from := blob.Hi
@@ -694,7 +758,7 @@ func (x *c14) semKeyHash(cKH *ssa.Function) c14V {
 	if len(bad) > 0 {
 		return c14Bad_("%s", strings.Join(bad, "; "))
 	}
-	return c14Ok("on %d entry sequences (KeyHash first / in the middle / last / absent, entries of 258 and 257 bytes, an unknown entry type, stray bytes after the last entry) exactly the bytes after the KeyHash entry reach utils.ComputeHash once and its digest is returned", len(seqs))
+	return c14Ok("on %d entry sequences (KeyHash first / in the middle / last / absent, entries of 258 and 257 bytes, an unknown entry type, stray bytes after the last entry) exactly the bytes after the KeyHash entry reach one SHA-256 digest (utils.ComputeHash, or writes into a sha256 state: the hashed sequence is the concatenation of the writes) and that digest is returned", len(seqs))
 }
 
 // semIntegrity interprets CheckIntegrity with ComputeKeyHash summarised as a
